@@ -80,6 +80,48 @@ def gen_case(rng, multi_line=False):
     return dict(cfg=c, needles=ns, confirm=confirm, lt_mode=lt_mode, input=inp)
 
 
+TERM_BYTES = [0, 0, 0, 59, 59, 255, 1, 9, 128, 10, 10]
+
+
+def gen_term_case(rng, stop_ok=False):
+    """terminator stress: the line terminator is drawn from NUL, ';', 0xFF, other bytes and (as control) LF / CRLF;
+    the records contain `\n` and `\r` as ordinary bytes whenever these are not the terminator; mostly non-zero
+    context sizes, several records, sparse matches -- what a buffer switch of the incremental reader must retain
+    is decided by counting TERMINATORS, not line feeds"""
+    ltb = rng.choice(TERM_BYTES)
+    crlf = ltb == 10 and rng.random() < 0.5
+    sizes = [0, 1, 1, 2, 2, 3]
+    c = dict(crlf=crlf, ltbyte=ltb, invert=rng.random() < 0.25, after=rng.choice(sizes), before=rng.choice(sizes),
+             passthru=rng.random() < 0.1, line_number=rng.random() < 0.7,
+             stop_on_nonmatch=stop_ok and rng.random() < 0.1, multi_line=False)
+    # a buffer switch goes wrong only when the retained records hold more `\n` than there are context lines:
+    # line feeds are frequent in the records (weight drawn per case)
+    al = [b for b in [97, 98, 120, 32, 13] + [10] * rng.choice([2, 4, 6, 9]) if b != ltb]
+    term = b"\r\n" if crlf else bytes([ltb])
+    n = rng.choice([2, 3, 4, 5, 6, 8, 10, 12, 16])
+    s = b""
+    for i in range(n):
+        s += bytes(rng.choice(al) for _ in range(rng.choice([0, 1, 2, 2, 3, 3, 4, 6])))
+        if i + 1 < n or rng.random() < 0.75:
+            s += term if (not crlf or rng.random() < 0.85) else b"\n"
+    # sparse matches: two-byte needles mostly, so that unmatched records precede a match
+    nal = [b for b in (97, 98, 120, 32, 10) if b != ltb]
+    ns = []
+    for _ in range(rng.choice([1, 1, 2])):
+        ns.append((False, bytes(rng.choice(nal) for _ in range(rng.choice([1, 2, 2]))), True))
+    for _ in range(rng.choice([0, 0, 1])):
+        ns.append((False, bytes(rng.choice(nal) for _ in range(rng.choice([1, 2]))), False))
+    rng.shuffle(ns)
+    return dict(cfg=c, needles=ns, confirm=rng.random() < 0.5, lt_mode=rng.choice([0, 1, 1, 2]), input=s)
+
+
+def term_name(c):
+    """feature label of the line terminator of a configuration"""
+    if c["crlf"]:
+        return "term=CRLF"
+    return {10: "term=LF", 0: "term=NUL"}.get(c["ltbyte"], "term=0x%02x" % c["ltbyte"])
+
+
 def case_val(case, reply=None):
     r = "()" if reply is None else vlist([str(reply[0]), str(reply[1])])
     return vlist([cfg_val(case["cfg"]), matcher_val(case["needles"], case["confirm"], case["lt_mode"]),
